@@ -58,6 +58,9 @@ def cases(ctx, quick):
     for i, c in enumerate(inl):
         out.append(dict(id="inline-cmt-%d" % i, patch="@@\nvar x expression\n@@\n-ptr(x)\n+&x\n", src=c, api_out=None, api_err=None))
         out.append(dict(id="inline-cmt-same-%d" % i, patch="@@\nvar x expression\n@@\n-ptr(x)\n+ref(x)\n", src=c, api_out=None, api_err=None))
+    # no newline at the end of the file (the rewritten file always ends with one)
+    out.append(dict(id="kind-match-nonl", patch=fr.PATCH, src=fr.MATCH.rstrip("\n"), api_out=None, api_err=None))
+    out.append(dict(id="kind-match-nonl-last", patch=fr.PATCH, src="package a\n\nfunc f() {\n\tfoo(1)\n}\n\nvar last = foo(2)", api_out=None, api_err=None))
     # a line longer than any line buffer (64 KiB is the default of bufio.Scanner), LF and CRLF
     long_line = "package a\n\nvar s = \"" + "x" * 70000 + "\"\n\nfunc f() {\n\tfoo(1)\n}\n"
     out.append(dict(id="kind-match-longline", patch=fr.PATCH, src=long_line, api_out=None, api_err=None))
